@@ -107,6 +107,17 @@ def oracle(case, est=None):
         return f'transform / inverse_transform raised {type(ex).__name__}: {ex}'
 
 
+def population_search(ctx):
+    """failing-input search over a fresh population (also used when an exception raised inside the implementation
+    ended the correspondence run early)"""
+    for i in range(400):
+        fc = st.gen_case(ctx.rng, KINDS, max_depth=3, cap=40, opaque=True)
+        why = oracle(fc)
+        if why:
+            ctx.fail(why, fc, {'kinds': sorted(pipes.kinds_in(fc['spec']))})
+            return
+
+
 def run(ctx):
     ctx.rule = ('random lifting-function trees (all ten kinds, depth<=3, chains<=3, forced share of unequal '
                 'delays) x (n_states 1..3, n_inputs 0..2, episode feature on/off, 1..4 episodes of unequal '
@@ -179,12 +190,7 @@ def run(ctx):
                 if why:
                     ctx.fail(why, fc, {'kinds': sorted(pipes.kinds_in(c['spec']))})
                     return
-        for i in range(400):
-            fc = st.gen_case(ctx.rng, KINDS, max_depth=3, cap=40, opaque=True)
-            why = oracle(fc)
-            if why:
-                ctx.fail(why, fc, {'kinds': sorted(pipes.kinds_in(fc['spec']))})
-                return
+        population_search(ctx)
     return ctx.finish('proof', search)
 
 
